@@ -192,22 +192,38 @@ func (o *poolObs) pendingAt(t uint64) (n int) {
 
 // ---------------------------------------------------------------- structural pattern of a pool's goroutines
 
-// poolPattern describes where the goroutines created since `before` sit.
+// poolPattern describes where the pool's own goroutines sit. No rule depends
+// on an unexported hive.go identifier: a pool goroutine is one the harness did
+// not create whose outermost frame lies in package workerpool; a task body is
+// recognised by the harness' own closure frame (main.*); the dispatcher by the
+// exported operations only it performs (Stack.PopOrWait, Counter.WaitIsZero /
+// WaitIsBelow, IsRunning outside a task) or by its `chan send`; idle workers by
+// their goroutine state (select = reading, chan receive = draining).
 type poolPattern struct {
-	Dispatcher string // gone | WaitIsBelow | PopOrWait.Wait | PopOrWait.gate | IsRunning.RLock | chan send | other:<state>
-	Shutdown   int    // workers in handleShutdown
-	ReadLoop   int    // workers in workerReadLoop (not running a task)
-	InTask     int    // workers inside Task.run
-	StartWaits bool   // a goroutine sits in WorkerPool.Start -> ShutdownComplete.Wait (holding the pool mutex)
+	Dispatcher string // gone | WaitIsBelow | PopOrWait.Wait | PopOrWait.gate | IsRunning.RLock | chan send
+	Shutdown   int    // workers draining the dispatch channel after the shutdown signal (chan receive)
+	ReadLoop   int    // idle workers selecting on shutdown signal / dispatch channel
+	InTask     int    // workers inside a harness task closure
+	Other      int    // pool goroutines in any other place (running, runnable, ...)
+	NDisp      int    // number of dispatcher goroutines identified (several pools)
+	StartWaits bool   // a goroutine sits in WorkerPool.Start -> ShutdownComplete.Wait
 	RLockers   int    // goroutines parked in WorkerPool.IsRunning on the pool mutex
 }
 
 func (p poolPattern) String() string {
 	s := fmt.Sprintf("dispatcher=%s workers{handleShutdown:%d readLoop:%d inTask:%d}", p.Dispatcher, p.Shutdown, p.ReadLoop, p.InTask)
+	if p.Other > 0 {
+		s += fmt.Sprintf(" other:%d", p.Other)
+	}
 	if p.StartWaits {
 		s += fmt.Sprintf(" Start()=in ShutdownComplete.Wait; %d goroutine(s) parked in IsRunning().RLock", p.RLockers)
 	}
 	return s
+}
+
+// total number of pool goroutines identified.
+func (p poolPattern) total() int {
+	return p.Shutdown + p.ReadLoop + p.InTask + p.Other + p.NDisp
 }
 
 func idSet(gs []gdump.G) map[uint64]bool {
@@ -218,43 +234,74 @@ func idSet(gs []gdump.G) map[uint64]bool {
 	return m
 }
 
+const pkgWP, pkgSU = "hive.go/runtime/workerpool.", "hive.go/runtime/syncutils."
+
+// isPoolGoroutine: created by the pool itself (outermost frame in package workerpool).
+func isPoolGoroutine(g gdump.G) bool {
+	return len(g.Frames) > 0 && strings.Contains(g.Frames[len(g.Frames)-1], pkgWP)
+}
+
+func inHarnessTask(g gdump.G) bool {
+	for _, f := range g.Frames {
+		if strings.HasPrefix(f, "main.") {
+			return true
+		}
+	}
+	return false
+}
+
 func patternOf(gs []gdump.G, before map[uint64]bool) poolPattern {
 	p := poolPattern{Dispatcher: "gone"}
 	for _, g := range gs {
 		if before != nil && before[g.ID] {
 			continue
 		}
-		if g.Has("workerpool.(*WorkerPool).Start") && g.Has("sync.(*WaitGroup).Wait") {
+		if g.Has(pkgWP+"(*WorkerPool).Start") && g.Has("sync.(*WaitGroup).Wait") {
 			p.StartWaits = true
 		}
-		if g.Has("workerpool.(*WorkerPool).IsRunning") && strings.HasPrefix(g.State, "sync.RWMutex") {
+		if g.Has(pkgWP+"(*WorkerPool).IsRunning") && strings.HasPrefix(g.State, "sync.RWMutex") {
 			p.RLockers++
 		}
+		if !isPoolGoroutine(g) {
+			continue
+		}
 		switch {
-		case g.Has("workerpool.(*WorkerPool).dispatcher"):
-			switch {
-			case g.Has("syncutils.(*Counter).WaitIsBelow"):
-				p.Dispatcher = "WaitIsBelow"
-			case g.Has("PopOrWait") && g.Has("main.hook"):
-				p.Dispatcher = "PopOrWait.gate"
-			case g.Has("PopOrWait") && g.State == "sync.Cond.Wait":
-				p.Dispatcher = "PopOrWait.Wait"
-			case g.Has("workerpool.(*WorkerPool).IsRunning") && strings.HasPrefix(g.State, "sync.RWMutex"):
-				p.Dispatcher = "IsRunning.RLock"
-			case g.State == "chan send":
-				p.Dispatcher = "chan send"
-			default:
-				p.Dispatcher = "other:" + g.State
-			}
-		case g.Has("workerpool.(*Task).run"):
+		case g.Has("(*Stack[...]).PopOrWait") && g.Has("main.hook"):
+			p.Dispatcher = "PopOrWait.gate"
+			p.NDisp++
+		case inHarnessTask(g):
 			p.InTask++
-		case g.Has("workerpool.(*WorkerPool).handleShutdown"):
-			p.Shutdown++
-		case g.Has("workerpool.(*WorkerPool).workerReadLoop"):
+		case g.Has(pkgSU + "(*Counter).WaitIsZero"), g.Has(pkgSU + "(*Counter).WaitIsBelow"):
+			p.Dispatcher = "WaitIsBelow"
+			p.NDisp++
+		case g.Has("(*Stack[...]).PopOrWait") && g.State == "sync.Cond.Wait":
+			p.Dispatcher = "PopOrWait.Wait"
+			p.NDisp++
+		case g.Has(pkgWP+"(*WorkerPool).IsRunning") && strings.HasPrefix(g.State, "sync.RWMutex"):
+			p.Dispatcher = "IsRunning.RLock"
+			p.NDisp++
+		case g.State == "chan send":
+			p.Dispatcher = "chan send"
+			p.NDisp++
+		case g.State == "select":
 			p.ReadLoop++
+		case g.State == "chan receive":
+			p.Shutdown++
+		default:
+			p.Other++
 		}
 	}
 	return p
+}
+
+// blind reports why the structural rules do not see a freshly started, idle
+// pool the way they must (one dispatcher waiting for work, all workers idle);
+// "" if they do. A run in which they do not is INCONCLUSIVE, never a violation.
+func blind(p poolPattern, workers int) string {
+	if !strings.HasPrefix(p.Dispatcher, "PopOrWait") || p.ReadLoop != workers || p.total() != workers+1 {
+		return fmt.Sprintf("structural rules identify %q instead of 1 dispatcher in PopOrWait + %d idle workers right after Start (hive.go internals changed shape?)", p.String(), workers)
+	}
+	return ""
 }
 
 // ---------------------------------------------------------------- outcome and classification
